@@ -37,4 +37,18 @@ MUTANTS = [
    "        ctx = _build_backoff_context(\n            attempt=attempt,\n            classification=Classification(klass=klass),")]),
  dict(name="c05-attempt-off-by-one-async", props=["C05", "C12"], edits=[(AC,
    "decision = state.handle_result(result, classification, attempt)", "decision = state.handle_result(result, classification, attempt - 1)")], count=0),
+
+ dict(name="c04-stale-exception", props=["C04", "C11"], edits=[(S,
+   "            self.last_result = result\n            self.last_exc = None\n", "            self.last_result = result\n"),
+   (H, '    if not ok and state.last_cause == "exception":\n        last_exception = state.last_exc',
+       '    if not ok and state.last_exc is not None:\n        last_exception = state.last_exc')]),
+ dict(name="c04-substitute-exception", props=["C04"], edits=[(SC,
+   "                raise_scheduled(action)\n            raise\n", "                raise_scheduled(action)\n            raise type(exc)(*exc.args) from None\n")]),
+ dict(name="c04-lost-traceback-async", props=["C04"], edits=[(AC,
+   "                raise_scheduled(action)\n            raise\n", "                raise_scheduled(action)\n            raise exc.with_traceback(None)\n")]),
+ dict(name="c11-attempts-off", props=["C11"], edits=[(SC,
+   "            attempt_state.started = True\n            attempts = attempt\n", "            attempt_state.started = True\n            attempts = attempt - 1 if attempt > 2 else attempt\n")]),
+ dict(name="c11-revert-f7", props=["C11"], edits=[("src/redress/policy/policy.py", "            attempts = 1\n", "")]),
+ dict(name="c04-scheduled-last-exc-dropped", props=["C04"], edits=[("src/redress/policy/runner/logic.py",
+   "            last_exception=state.last_exc if not for_result else None,", "            last_exception=None,")]),
 ]
